@@ -60,7 +60,7 @@ let () =
       of_bool (match to_str name with
           | "gnd" -> gg_guard_gnd a | "gnd-spec" -> gg_guard_gnd_spec a | "gnp" -> gg_guard_gnp a p | "gnm" -> gg_guard_gnm a
           | "complete-simple" -> gg_guard_complete_simple a | "empty-simple" -> gg_guard_empty_simple a
-          | "grid" | "torus" -> gg_guard_grid a | "glrp" -> gg_guard_glrp a p | "glrm" -> gg_guard_glrm a
+          | "grid" | "torus" -> gg_guard_grid a | "grid-spec" -> gg_guard_grid_spec a | "glrp" -> gg_guard_glrp a p | "glrm" -> gg_guard_glrm a
           | "glrd" -> gg_guard_glrd a | "regular" -> gg_guard_regular a | "shift" -> gg_guard_shift a
           | "complete-bipartite" | "empty-bipartite" -> gg_guard_two_positive a
           | "path" | "tree" | "pyramid" | "plantclique" | "addedges" | "splitedges" -> gg_guard_one_nonneg a
